@@ -1,6 +1,7 @@
 package checks
 
 import (
+	"encoding/json"
 	"fmt"
 	"strings"
 	"sync"
@@ -258,6 +259,53 @@ func c05(c *Ctx) {
 						}
 					}
 					c.R.Decided(caseID)
+					// the same body with an explicit `null` for every top-level field the value leaves unset: proto3
+					// JSON reads null as "absent" for every field kind, annotated or not
+					if ctx == "top" {
+						if obj, ok := jsonmap.Resolve(wantTree).(map[string]any); ok && !jsonmap.IsRootUnwrap(ctxMD) {
+							withNulls := map[string]any{}
+							for k, v := range obj {
+								withNulls[k] = v
+							}
+							added := 0
+							fds := ctxMD.Fields()
+							for i := 0; i < fds.Len(); i++ {
+								fd := fds.Get(i)
+								if _, present := withNulls[fd.JSONName()]; !present && !M.Has(fd) && fd.ContainingOneof() == nil {
+									withNulls[fd.JSONName()] = nil
+									added++
+								}
+							}
+							nullCase := fmt.Sprintf("%s/ctx=%s/dir=req/nulls-for-unset@%s", base, ctx, vclass)
+							if added > 0 && c.Want(nullCase) {
+								nb, _ := json.Marshal(withNulls)
+								gs.Script(rpc, map[string]any{})
+								resp, err := rawHTTP("POST", gs.URL, u.FP.Path[ctx], [][2]string{{"Content-Type", "application/json"}}, nb)
+								c.R.Eval(1)
+								evs, _ := syncEvents(ch)
+								if err == nil {
+									rp := map[string]any{"proto": protoText, "rpc": rpc, "request_json": string(nb), "value": fmt.Sprint(M), "status": resp.Status, "response_body": string(resp.Body)}
+									var hs []lab.Event
+									for _, e := range evs {
+										if e.Str("ev") == "handler" {
+											hs = append(hs, e)
+										}
+									}
+									if len(hs) != 1 {
+										c.R.Violate(nullCase, "contract-form-rejected", fmt.Sprintf("st%d %s", resp.Status, rejectReason(resp.Body)), rp)
+									} else {
+										got := dynamicpb.NewMessage(ctxMD)
+										_ = proto.Unmarshal(unb64(hs[0].Str("req")), got)
+										if !proto.Equal(jsonmap.Norm(got), norm) {
+											rp["handler_saw"] = fmt.Sprint(got)
+											c.R.Violate(nullCase, "request-changed", diffFields(norm, got), rp)
+										}
+									}
+									c.R.Decided(nullCase)
+								}
+							}
+						}
+					}
 				}
 			}
 		}
